@@ -39,17 +39,17 @@ CLAIMED.update({
         note="Trusted: z3, symx, the stub devices replicating Fakeable._async_send_cmd/_handle_msg and the dispatcher's 1FC9 routing. Bounds: the 4 supported flows, <=1 repeat (quick) / 2 (thorough), 6-8 symbolic delays per episode. A failing send leaving the context binding is a recorded known finding.",
         design="4/C20"),
 })
-_DEC_NOTE = "Trusted: z3, symx (regex simulator, symbolic strings; differentially validated against the plain package on the repository's 3.2k logged frames by ./vcheck selfcheck). Bounds: symbolic part = whole payloads up to 4 (quick) / 6 (thorough) bytes with symbolic device types, every 2-byte (thorough: also 3-byte) window of logged payloads, one header field at a time; bytes outside the window keep their logged value."
+_DEC_NOTE = "Trusted: z3, symx (regex simulator, symbolic strings; differentially validated against the plain package on the repository's 3.2k logged frames by ./vcheck selfcheck). Bounds: symbolic part = whole payloads up to 4 (quick) / 6 (thorough) bytes with symbolic device types, every 2-byte (thorough: also 3-byte) window of logged payloads, every truncation of a logged payload, one header field at a time, all combinations of the address fields over a 6-id alphabet; bytes outside the window keep their logged value."
 CLAIMED.update({
     "C01": dict(
         text="The real Packet factories, Message(pkt), _frame_read, FileTransport._reader, _pkt_received and PortTransport._read_ready run on lines/buffers with symbolic parts; per path the solver shows that only the invalid-packet error (or ValueError from the factory) can leave the decode path, that a replay delivers the lines after a bad one, and - one inductive step from an arbitrary CRLF-free buffer and an arbitrary chunk, every byte symbolic - that the lines emitted are exactly the CRLF split of the bytes received, which makes delivery independent of the read partition for streams of any length.",
-        note=_DEC_NOTE + " Read partitioning: |buffer| <= 3 (5), |chunk| <= 4 (6) bytes, all 256 byte values.", design="4/C01"),
+        note=_DEC_NOTE + " Read partitioning: |buffer| <= 3 (5), |chunk| <= 4 (6) bytes, all 256 byte values, plus one 840-byte read of 14 frames on a symbolic buffer tail. The serial receive path proper (the sync-cycle tracker around PortTransport._pkt_read) is fed a corrupted/truncated frame followed by a good one.", design="4/C01"),
     "C02": dict(
         text="Frame/Packet/Command construction and printing run on frames whose eight fields are all symbolic (verb selector, sequence digits, every address digit in the three legal shapes, code, length digits, 2n payload characters, RSSI, annotation texts); per path the solver shows printed text == input text cell for cell, fields preserved, length field == byte count, _from_attrs/from_attrs/from_cli print the long form, and the replayer's [:26]/[27:] slicing returns an equal packet with the same time stamp.",
-        note="Trusted: z3, symx. Bounds: payload n in {1,2,3,8,24,48} (thorough 1..48); annotations <= 4 (6) printable characters without the separator characters. Outside: the writer side of the packet log (logging %-formatting and dt.fromtimestamp are C code) - the log line is composed in the harness as _Logger.makeRecord/PKT_LOG_FMT compose it.",
+        note="Trusted: z3, symx. Bounds: payload n in {1,2,3,8,24,48} (thorough 1..48); annotations <= 4 (6) printable characters without the separator characters. The writer side of the packet log (logging %-formatting and dt.fromtimestamp are C code) cannot be symbolic: for the symbolic queries the log line is composed in the harness as _Logger.makeRecord/PKT_LOG_FMT compose it, and one query runs the real writer and the real replayer on selector-chosen concrete time stamps (incl. whole seconds).",
         design="4/C02"),
     "C05": dict(
-        text="Packet + Message + the per-code parser run on symbolic payloads (whole short payloads for every verb/code with symbolic device types, every 2-byte window of logged payloads, arrays with all or one element symbolic); whenever a path decodes, the solver shows for every input of the path: plain-JSON types only, a second decode after unrelated decodes is cell-for-cell equal, reported zone/domain/dhw/ufh indexes equal the frame characters at the index position, array entry i equals element i decoded as its own frame, ratios in [0,1], temperatures inside the wire range.",
+        text="Packet + Message + the per-code parser run on symbolic payloads (whole short payloads for every verb/code with symbolic device types, every 2-byte window of logged payloads, arrays with all or one element symbolic, under the announce-to-self and the addressed form; and every logged frame decoded concretely with all caches live); whenever a path decodes, the solver shows for every input of the path: plain-JSON types only, a second decode after unrelated decodes is cell-for-cell equal, reported zone/domain/dhw/ufh indexes equal the frame characters at the index position, array entry i equals element i decoded as its own frame, ratios in [0,1], temperatures inside the wire range.",
         note=_DEC_NOTE + " Indexes the code derives from a zone type/role (0005, 000C, 0404, 0418, 3220, 1FC9) are outside the index clause.", design="4/C05"),
 })
 CLAIMED.update({
